@@ -49,6 +49,18 @@ CLAIMED['C16'] = dict(
          "A solver counterexample is reported only if the real binary panics at the same source line on a generated nested input.",
     design='§5 C16')
 
+CLAIMED['C07'] = dict(
+    category='model_checking',
+    text="Inductive step over the real MIR of the final line scanner (FormatLines::{new,char,new_line,push_err,should_report_error,is_skipped_line}) "
+         "and FormatReport::track_errors: from an arbitrary scanner state satisfying the representation invariant, one char or newline event with "
+         "arbitrary character, classifier kind, max_width, tab_spaces, both flags, skipped ranges and an uninterpreted line-selection predicate is "
+         "executed symbolically; the solver decides completeness (every reportable line is reported), soundness (no other line, right line number, "
+         "found/max values), the unconditional trailing-blank clause, and that the invariant is re-established - so the result holds for texts of any length.",
+    note="Trusted: MIR printer, mirsym (validated each run by pushing concrete texts through the real scanner via the format_lines_scan hook and through the "
+         "encoding), the stated reading of 'comment line' / 'contains a string literal' in terms of classifier kinds, sel(n) standing for file_lines "
+         "(C17), <= 2 (thorough 3) skipped ranges, all counters < 2^32. Outside: how skipped ranges are recorded by the visitors, and the classifier itself.",
+    design='§5 C07')
+
 NA = {
     'C01': "token-sequence equivalence over all programs requires symbolic execution of rustc_parse and ~30 kLoC of AST rewriters; no encodable kernel carries it",
     'C02': "fixed-point of the full formatting pipeline (parser + all rewriters on both sides); not encodable, and idempotence of kernels does not imply it",
